@@ -271,6 +271,95 @@ class MainJsonStdout(Harness):
         return label
 
 
+SEED_PEERS = {
+    'strict-cbc-dups': {'kex': ['curve25519-sha256', 'kex-strict-s-v00@openssh.com'], 'key': ['ssh-ed25519', 'ssh-rsa'],
+                        'enc': ['chacha20-poly1305@openssh.com', 'aes128-cbc', 'aes128-cbc', '3des-cbc', 'aes128-ctr'],
+                        'mac': ['hmac-sha1-etm@openssh.com', 'umac-64-etm@openssh.com', 'hmac-sha2-256-etm@openssh.com', 'hmac-sha1-etm@openssh.com']},
+    'weak-unknowns': {'kex': ['diffie-hellman-group1-sha1', 'zz-unknown-b', 'curve25519-sha256', 'zz-unknown-a'], 'key': ['ssh-dss', 'ssh-ed25519', 'zz-unknown-a'],
+                      'enc': ['3des-cbc', 'arcfour', 'zz-unknown-c', 'aes128-ctr'], 'mac': ['hmac-md5', 'hmac-sha2-256', 'hmac-md5']},
+}
+_NATIVE = """
+import sys, json
+sys.path.insert(0, sys.argv[1])
+from ssh_audit import ssh_audit, auditconf, outputbuffer, banner, ssh2_kex, ssh2_kexparty
+L = json.loads(sys.argv[2]); js = sys.argv[3] == '1'
+aconf = auditconf.AuditConf('host', 22); aconf.json = js
+out = outputbuffer.OutputBuffer(); out.use_colors = False
+if js: out.json = True
+srv = ssh2_kexparty.SSH2_KexParty(L['enc'], L['mac'], ['none'], [''])
+kex = ssh2_kex.SSH2_Kex(out, b'\\x00' * 16, L['kex'], L['key'], srv, srv, False, 0)
+r = ssh_audit.output(out, aconf, banner.Banner((2, 0), 'OpenSSH_8.0', None, True), [], None, kex)
+print(r); print('\\n'.join(out.buffer + out.section))
+"""
+
+
+class HashSeedOrder(Harness):
+    """byte-identity under different hash seeds, decided through a model of what a hash seed can change: the iteration order of sets.  The report of a peer (with
+    duplicates, Terrapin notes, unknown names, many recommendations) is rendered once with every set iterated in insertion order and once with every set iteration
+    (for loops, comprehensions, list()/tuple()/enumerate()/join over a set) in a solver-chosen order - all orders for sets of up to 4 elements; the two renderings
+    must be equal.  A difference is confirmed natively by running the pristine code in subprocesses under several PYTHONHASHSEED values before it is reported."""
+    prop, ob = PROP, 'O5'
+    width = 64
+    SEEDS = (0, 1, 2, 3, 5, 8, 13, 21)
+
+    def __init__(self, peer, json):
+        self.peer, self.json = peer, json
+        self.name = 'hashseed-%s-%s' % (peer, 'json' if json else 'text')
+
+    def params(self):
+        return {'peer': self.peer, 'json': self.json}
+
+    def inputs(self):
+        return {}
+
+    def render(self, M, permute):
+        if zx.active():
+            zx.cur().permute_sets = permute
+        try:
+            r = OL.run_output(M, SEED_PEERS[self.peer], json=self.json)
+        finally:
+            if zx.active():
+                zx.cur().permute_sets = False
+        if isinstance(r['ret'], Exc):
+            return r['ret']
+        doc = None
+        if self.json and r['doc'] is not None:
+            import json as _json
+            doc = _json.dumps(AE.ConcJson._conc(r['doc']), sort_keys=True)
+        return (r['ret'], [ln if isinstance(ln, str) else zx.shims.concretize_str(ln) for ln in r['lines']] if not self.json else doc)
+
+    def run(self, M, inp):
+        if M.kind == 'pristine':
+            # native counterpart: the unmodified code under several real hash seeds
+            import subprocess, json as _json, os
+            from vf import harness as H
+            outs = set()
+            for sd in self.SEEDS:
+                env = dict(os.environ, PYTHONHASHSEED=str(sd))
+                p = subprocess.run(['/venv/bin/python', '-c', _NATIVE, H.SRC, _json.dumps(SEED_PEERS[self.peer]), '1' if self.json else '0'], capture_output=True, text=True, env=env, timeout=120)
+                outs.add(p.stdout + p.stderr[-200:])
+            return {'same': len(outs) == 1, 'orders_explored': 0}
+        a = self.render(M, False)
+        b = self.render(M, True)
+        if isinstance(a, Exc) or isinstance(b, Exc):
+            return {'exc': a if isinstance(a, Exc) else b}
+        return {'same': a == b, 'orders_explored': getattr(zx.cur(), 'set_orders', 0) if zx.active() else 0}
+
+    def obs_key(self, obs):
+        # per-path cross-validation does not apply: the native counterpart (several real hash seeds) corresponds to ALL explored orders together; a difference
+        # found by the model is confirmed natively by the replay step (which evaluates the oracle on the native observation) before it is reported
+        return {}
+
+    def describe(self, inp, obs):
+        return {'inputs': {'peer': SEED_PEERS[self.peer]}, 'observation': {'same_report_under_every_order': obs.get('same'), 'set_iterations_permuted': obs.get('orders_explored')}}
+
+    def check(self, inp, obs):
+        if 'exc' in obs:
+            yield 'no-exception', False
+            return
+        yield 'report-independent-of-set-iteration-order', obs['same']
+
+
 class BufferFilter(Harness):
     """OutputBuffer: an arbitrary sequence of <=4 print calls at symbolic levels under a symbolic minimum level and batch flag:
     exactly the calls at or above the level are kept, in order; head()/sep() vanish in batch mode."""
@@ -351,6 +440,9 @@ def tasks(tier):
         T.append(JsonVsTextTwoCats(c1, c2))
     for arch in ('weak', 'clean', 'unknown'):
         T.append(MainJsonStdout(arch))
+    for peer in SEED_PEERS:
+        for js in (False, True):
+            T.append(HashSeedOrder(peer, js))
     for n in ((1, 2, 3) if q else (1, 2, 3, 4)):
         T.append(BufferFilter(n))
     return T
@@ -365,6 +457,8 @@ def harness_by_name(name, params):
         return JsonVsText(p['cat'], p['nf'], p['nw'], p['ni'], p['indent'])
     if k == 'jsonvstext2':
         return JsonVsTextTwoCats(p['cat1'], p['cat2'])
+    if k == 'hashseed':
+        return HashSeedOrder(p['peer'], p['json'])
     if k == 'mainjson':
         return MainJsonStdout(p['arch'])
     if k == 'bufferfilter':
@@ -373,12 +467,15 @@ def harness_by_name(name, params):
 
 
 META = {
-    'functions': ['OutputBuffer._print/level/head/sep/flush_section/__enter__/__exit__', 'output()', 'output_algorithm(s)', 'build_struct'],
+    'functions': ['OutputBuffer._print/level/head/sep/flush_section/__enter__/__exit__', 'output()', 'output_algorithm(s)', 'build_struct', 'main() (JSON stdout)', 'post_process_findings'],
     'bounds': {'quick': 'one arbitrary row (0..2 symbolic notes per level) + one symbolic 2-char neighbour in 2 categories, all batch/verbose pairs and all three '
-                        'minimum levels symbolic; JSON vs text for the same rows; OutputBuffer call sequences of 1..3 calls over 6 call kinds',
+                        'minimum levels symbolic; JSON vs text for the same rows and for one name in two categories; OutputBuffer call sequences of 1..3 calls over 6 call kinds; '
+                        'real main() with -j/-jj for 3 peers under symbolic -v/-b/-l; hash seeds: 2 peers (duplicates, Terrapin notes, unknown names) x text/JSON with every '
+                        'iteration over a set in every order (sets of <= 4 elements; larger sets: every first element, rest forwards/backwards)',
                'thorough': 'all 27 note-count rows in all 4 categories; sequences of 4 calls'},
-    'outside': ['NOT ADDRESSABLE by this technique: byte-identity under different PYTHONHASHSEED values (CPython string hashing has no symbolic model)',
-                'NOT ADDRESSABLE: compact vs indented JSON parse to the same value (property of the json library, C code)', 'colour escape codes (use_colors=False in harnesses)'],
-    'stubs': ['json.dumps: capturing stub'],
-    'assumptions': [],
+    'outside': ['hash seeds: what a seed can change is MODELLED as the iteration order of sets (for loops, comprehensions, list/tuple/enumerate/join over a set); other conceivable channels '
+                '(hash() values printed or compared, dict ordering is insertion ordered and not affected, set.pop()) are not modelled; CPython string hashing itself is not modelled',
+                'compact vs indented JSON: compared on the concrete documents of each explored path (json library trusted)', 'colour escape codes (use_colors=False in harnesses)'],
+    'stubs': ['json.dumps: capturing stub (real json in main()-level and hash-seed harnesses)', 'set iteration order: solver-chosen permutation'],
+    'assumptions': ['a difference found by the set-order model is reported only after the pristine code shows it natively under one of 8 PYTHONHASHSEED values'],
 }
